@@ -232,6 +232,13 @@ static void write_elf_header(
   }
     else
   {
+    // The 64 bit file header is 64 bytes, a program header 56 bytes.
+    if (elf->e_phnum > 0)
+    {
+      elf->e_phoff = 0x40;
+      elf->e_phentsize = 56;
+    }
+
     file.write_int16(elf->e_type);    // e_type 0=not relocatable 1=msp_32
     file.write_int16(elf->e_machine); // e_machine EM_MSP430=0x69
     file.write_int32(1);              // e_version
@@ -240,7 +247,7 @@ static void write_elf_header(
     elf->shoff_offset = file.tell();
     file.write_int64(0);              // e_shoff (section header offset)
     file.write_int32(elf->e_flags);   // e_flags (set to CPU model)
-    file.write_int16(0x34);           // e_ehsize (size of this struct)
+    file.write_int16(0x40);           // e_ehsize (size of this struct)
     file.write_int16(elf->e_phentsize); // e_phentsize (pheader size)
     file.write_int16(elf->e_phnum);   // e_phnum (program headers count)
     file.write_int16(64);             // e_shentsize (section header size)
